@@ -121,6 +121,25 @@ def setup_case(ctx, case):
     for i in range(n - 1):
         if A.verify_lock_key(Ys[i], key):
             ctx.violation({'clause': 'the final key opens only the last lock'}, f'seed {sname} n={n} hop {i}')
+    # key forms: public keys as PyNaCl VerifyKey objects (refund table keyed by bytes, and by objects) give the same chain
+    if sname == 's0' and n >= 2:
+        import nacl.signing
+        rsk, rpk = party_keys(seed, n, 'r')
+        refund_b = {pk[i]: rpk[i] for i in range(0, n, 2)}
+        base = T.setup_amhl(aseed, list(pk), refund_pubkeys=dict(refund_b))
+        objs = [nacl.signing.VerifyKey(k) for k in pk]
+        for form, keys_, refund_ in (('VerifyKey hops, bytes-keyed refunds', objs, dict(refund_b)),
+                                     ('VerifyKey hops and refund values', objs, {k: nacl.signing.VerifyKey(v) for k, v in refund_b.items()})):
+            try:
+                alt = T.setup_amhl(aseed, list(keys_), refund_pubkeys=refund_)
+                same = alt['key'] == base['key'] and all(
+                    tuple(getattr(x, 'bytes', x) for x in alt[pk[i]]) == tuple(getattr(x, 'bytes', x) for x in base[pk[i]]) for i in range(n))
+            except BaseException as e:
+                same = repr(e)
+            ctx.ran()
+            if same is not True:
+                ctx.violation({'clause': 'setup_amhl accepts keys as bytes or key objects', 'form': form.split(',')[0]},
+                              f'seed {sname} n={n} {form}: {same}')
     # no seed at all: every call draws its own, so two unseeded setups are two different chains, each consistent in itself
     if sname == 's0':
         env.Rand.reset(b'c18-unseeded')
